@@ -174,6 +174,14 @@ func (g *FieldGen) berTag() string {
 // Comp generates a coherent composite field spec of the given remaining depth.
 func (g *FieldGen) Comp(depth int, allowNone bool) *T {
 	r := g.R
+	if !allowNone && r.Intn(8) == 0 {
+		// fixed-width tags shorter than Tag.Length, padded on the wire (spec keys "1", "2" sent as "01", "02")
+		d := depth - 1
+		if d < 0 {
+			d = 0
+		}
+		return g.PadTagComp(d)
+	}
 	n := 1 + r.Intn(4)
 	if r.Intn(6) == 0 {
 		n = 2 + r.Intn(10)
